@@ -115,6 +115,12 @@ func SexpToJson(exp Sexp) string {
 		return exp.SexpString(nil)
 	case *SexpUint64:
 		return strconv.FormatUint(e.Val, 10)
+	case *SexpFloat:
+		s := strconv.FormatFloat(e.Val, 'g', -1, 64)
+		if !strings.ContainsAny(s, ".eEIN") {
+			s += ".0" // a float stays a float; and the decoder refuses integer-looking texts in [2^63, 2^64)
+		}
+		return s
 	default:
 		return exp.SexpString(nil)
 	}
